@@ -868,3 +868,8 @@ PROPS["C16"]["also_drivers"] = ["C13"]
 # futures, accepted descriptors of direct listeners) are C07's driver, which now also checks that
 # the ring's shared state is released once every handle is gone (seeds C12-i, C12-j).
 PROPS["C12"]["also_drivers"] = PROPS["C12"]["also_drivers"] + ["C07"]
+# C02's "every operation reports exactly what the kernel produced for it" also covers the composite
+# futures built on top of the operations (read_n / recv_n over a counting wrapper, incl. with a
+# pool buffer the kernel selects): C10's driver and model run with C02's check too (seeded change
+# C02-p, a ReadNBuf override that forgot the transfer size, had been missed).
+PROPS["C02"]["also_drivers"] = PROPS["C02"]["also_drivers"] + ["C10"]
